@@ -241,6 +241,12 @@ where
     let mut records: Vec<_> = rrset.iter().collect();
     records
         .sort_by(|a, b| a.as_ref().data().canonical_cmp(b.as_ref().data()));
+    // RFC 4034, section 6.3: duplicate records must not be part of the
+    // canonical form of an RRset.
+    records.dedup_by(|a, b| {
+        a.as_ref().data().canonical_cmp(b.as_ref().data())
+            == core::cmp::Ordering::Equal
+    });
     let rrset = Rrset::new_from_refs(&records)
         .expect("records is not empty so new should not fail");
 
